@@ -16,7 +16,7 @@ pub const INFO: CheckInfo = CheckInfo {
     rule: "twin executions over the shared (configuration x input x schedule) families and over decoder corpus streams: the reference execution (all CPU features, zeroed allocations, zeroed output buffers, end-aligned buffers) is compared call by call with (i) every CPU-feature mask {-avx2, -avx2-sse, -pclmulqdq, everything off} via hook H1, (ii) allocator garbage {0xFF, 0xA5}, output-buffer garbage {0xFF, 0x5A} and a stream reused after reset that first processed a DIFFERENT history (compressor: two histories, same payload; decoder: 30 earlier histories, then every short corpus stream incl. invalid ones whose back-references reach before the start of the new stream, compared with a fresh decoder), and streams duplicated with deflateCopy / inflateCopy under four allocator fill bytes, (iii) buffer misalignment 1, 3, 17, 31, 63 bytes; (iv) threads: a controlled scheduler (E2) runs 2-3 real threads, each driving its own stream (deflate / inflate / checksums), one runnable at a time, with scheduling points at every API call boundary and at every CPU-feature probe inside the library (H1 probe hook; the cached AVX2 detection is reset before each execution) and enumerates ALL schedules with at most 2 (3) preemptions by iterative-preemption-bounding DFS; every thread's outputs, statuses and counters must equal those of the same call list run alone. States = (thread, step) scheduler states, transitions = scheduling decisions; distinct_nontrivial = distinct twin/schedule outcomes (must collapse to the solo outcomes).",
     assumptions: &["the scheduler is sequentially consistent and cooperative: data races on plain memory that do not change results under some serialisation at the instrumented points are not visible (no race detector pass is run here)", "CPU variants that need another target (NEON, LSX, wasm) or a different build (AVX-512) are not covered by the run-time mask", "sandboxed x86-64 only"],
     bound_quick: "twins: tiny (every 3rd) + shape (stride 9) families, 4 masks, 4 garbage settings, 5 misalignments; threads: 6 thread-program sets, preemption bound 2",
-    bound_thorough: "twins on all families; threads: preemption bound 3",
+    bound_thorough: "twins on all families (shape configurations: every 5th); threads: preemption bound 3",
 };
 
 // ------------------------------------------------------------------------------------------------
@@ -332,7 +332,7 @@ pub fn run(ctx: &mut Ctx) {
     let mut zero_env = Env::new();
     zero_env.guarded_alloc = Some(0);
     zero_env.out_fill = Some(0);
-    let sel = dfam::Sel { tiny: true, shapes: true, big: true, sweep: !quick, shape_cfg_stride: if quick { 9 } else { 3 } };
+    let sel = dfam::Sel { tiny: true, shapes: true, big: true, sweep: !quick, shape_cfg_stride: if quick { 9 } else { 5 } };
     dfam::for_each(ctx, &fams, sel, |ctx, it| {
         if quick && it.fam == "tiny" && (it.sched_idx + it.inp.data.len() + it.cfg.level as usize) % 8 != 0 {
             return;
